@@ -153,6 +153,13 @@ class C16(Prop):
             n = rng.uniform(0.8, 0.95)
         else:
             n = rng.uniform(0.02, 0.95)
+        if rng.random() < 0.25:
+            # another unit system (Pa instead of MPa): the relation only involves stress/K and stress/E, so nothing may
+            # depend on the magnitude of the dimensional values - with a weakly hardening material K**(1/n) alone is
+            # far outside the double range while (stress/K)**(1/n) is O(1)
+            E, K = E * 1e6, K * 1e6
+            if rng.random() < 0.5:
+                n = rng.uniform(0.01, 0.03)
         return E, K, n
 
     def _gen_ro(self, rng):
@@ -193,6 +200,10 @@ class C16(Prop):
             nu = rng.uniform(-0.99, -0.5)
         elif mode == 3 and var != "1d":
             nu = rng.choice([-1.5, 0.51, 0.75, -1.0000001])                      # constructor must raise
+        elif mode == 4:
+            # close to, but inside, the admissible limits: G and K are large there and finite
+            d = 10.0 ** rng.uniform(-9, -4)
+            nu = rng.choice([0.5 - d, -1.0 + d])
         else:
             nu = rng.uniform(-0.95, 0.49)
         k = 1 if var == "1d" else HOOKE[var][2]
@@ -544,7 +555,9 @@ class C16(Prop):
             e3 = vec(h3.strain(sa, sb, 0.0, sc, 0.0, 0.0))
             if not near(e3, [e[0], e[1], e[2], e[3], 0.0, 0.0], ss / E):
                 return (f"plane stress strain {e!r} != 3D strain at s33 = 0 {e3!r} for s = {c['s']!r}", "hooke-3d-consistency")
-            s3 = vec(h3.stress(a, b, e2[2], g, 0.0, 0.0))
+            # the exact out-of-plane strain (e2[2] was just checked against it): feeding the round-tripped e2[2] would
+            # square the condition number 1/((1+nu)(1-2nu)) near the limits of nu
+            s3 = vec(h3.stress(a, b, (-nu / (1 - nu)) * (a + b), g, 0.0, 0.0))
             if not near(s3, [s[0], s[1], 0.0, s[2], 0.0, 0.0], E * se):
                 return (f"plane stress stress {s!r} != 3D stress with the plane-stress e33 {s3!r} for e = {c['e']!r}", "hooke-3d-consistency")
         else:
